@@ -179,7 +179,7 @@ def c09_program_start(Y, interaction="additive", T=5):
     return body
 
 
-def c09_overwrite(kind, Y, first_point_after_start=False, T=5):
+def c09_overwrite(kind, Y, first_point_after_start=False, T=5, first_point_before_start=False):
     """Same instructions except for a change dated Y in a stepped series that also states the earlier value"""
 
     def body(env):
@@ -198,11 +198,15 @@ def c09_overwrite(kind, Y, first_point_after_start=False, T=5):
             v0 = env.real("series_v0", 0, hi)
             v1 = env.real("series_v1", 0, hi)
             t0 = 2000.25 if first_point_after_start else 2000.0
+            start_year = 2000.0
+            if first_point_before_start:
+                # the series straddles the program start year without a point on it
+                t0, start_year = 2000.0, 2000.25
             tsA = au.TimeSeries(t=[t0], vals=[v0])
             tsB = au.TimeSeries(t=[t0, Y], vals=[v0, v1])
             tv = [float(t) for t in P.settings.tvec]
             limit = len([t for t in tv if t < Y])
-            A, B = run_pair(env, am, lambda: mr.build_model(env, P.settings, F, parset, progset, ap.ProgramInstructions(start_year=2000.0, **{kind: {prog: tsA}})), lambda A_: mr.build_model(env, P.settings, F, parset, progset, ap.ProgramInstructions(start_year=2000.0, **{kind: {prog: tsB}})), 0, limit, "before_%s_change" % kind, "overwrite_%s" % kind)
+            A, B = run_pair(env, am, lambda: mr.build_model(env, P.settings, F, parset, progset, ap.ProgramInstructions(start_year=start_year, **{kind: {prog: tsA}})), lambda A_: mr.build_model(env, P.settings, F, parset, progset, ap.ProgramInstructions(start_year=start_year, **{kind: {prog: tsB}})), 0, limit, "before_%s_change" % kind, "overwrite_%s" % kind)
             compare_rest(env, am, A, B, [(i, i) for i in range(limit)], "before_%s_change" % kind, "overwrite_%s" % kind)
 
     return body
@@ -235,10 +239,13 @@ def c09_scenario(par, Y, method, T=5):
     return body
 
 
-def c09_extension(name, T=4, extra=2, with_programs=False):
-    """Extending the simulation end year does not change earlier outputs"""
+def c09_extension(name, T=4, extra=2, with_programs=False, scenario=None):
+    """Extending the simulation end year does not change earlier outputs (scenario: a linear parameter scenario on `scenario` with
+    one point inside the short run and one beyond its end but inside the extended run)"""
 
     def body(env):
+        import atomica.scenarios as ascn
+
         am, ap, au, apar, afp = mr.modules()
         P = project(name, T, 0.25)
         P2 = project(name, T + extra, 0.25)
@@ -247,6 +254,12 @@ def c09_extension(name, T=4, extra=2, with_programs=False):
         with s1, s2:
             parset = copy.deepcopy(P.parsets[0])
             mr.symbolize_parset(env, parset, F, comps=False)
+            parsetA = parsetB = None
+            if scenario:
+                t_end = float(P.settings.tvec[-1])
+                sy = [env.real("scen_y0", 0, 1), env.real("scen_y1", 0, 1)]
+                scen = ascn.ParameterScenario(name="s", interpolation="linear")
+                scen.scenario_values[scenario] = {"pop_0": {"t": [t_end - 0.5, t_end + 0.3], "y": env.array(sy) if env.symbolic else np.array([float(v) for v in sy])}}
             m0 = am.Model(P.settings, F, P.parsets[0])
             parset.initialization = mr.symbolic_state(env, m0)
             progset = instr = None
@@ -254,7 +267,14 @@ def c09_extension(name, T=4, extra=2, with_programs=False):
                 progset, psym, outcomes = c13.make_progset(env, P, "additive", list(parset.pop_names))
                 instr = ap.ProgramInstructions(start_year=2000.25)
             n = len(P.settings.tvec)
-            A, B = run_pair(env, am, lambda: mr.build_model(env, P.settings, F, parset, progset, instr), lambda A_: mr.build_model(env, P2.settings, F, parset, progset, instr), 0, n, "end_year_extension", "extension")
+            if scenario:
+                # the scenario is applied to each project in turn (the scenario parset is built for that project's time span)
+                parsetA, parsetB = scen.get_parset(parset, P), scen.get_parset(parset, P2)
+                for q in (parsetA, parsetB):
+                    q.initialization = parset.initialization
+            else:
+                parsetA = parsetB = parset
+            A, B = run_pair(env, am, lambda: mr.build_model(env, P.settings, F, parsetA, progset, instr), lambda A_: mr.build_model(env, P2.settings, F, parsetB, progset, instr), 0, n, "end_year_extension", "extension")
             compare_rest(env, am, A, B, [(i, i) for i in range(n)], "end_year_extension", "extension")
 
     return body
@@ -265,7 +285,7 @@ def c09_extension(name, T=4, extra=2, with_programs=False):
 # ---------------------------------------------------------------------------------------------------------------
 
 
-def c10_restart(name, j, T=5, with_programs=False, chain=False, pops=1, transfers=0):
+def c10_restart(name, j, T=5, with_programs=False, chain=False, pops=1, transfers=0, dt=0.25):
     """Run A from a symbolic state; save state at index j into the parset; run B from t_j: B[i] == A[j+i]"""
 
     def body(env):
@@ -273,7 +293,7 @@ def c10_restart(name, j, T=5, with_programs=False, chain=False, pops=1, transfer
         import atomica.project as aproj
 
         am, ap, au, apar, afp = mr.modules()
-        P = project(name, T, 0.25, pops=pops, transfers=transfers)
+        P = project(name, T, dt, pops=pops, transfers=transfers)
         F = P.framework
         s1, s2 = _session(env)
         with s1, s2:
@@ -297,11 +317,14 @@ def c10_restart(name, j, T=5, with_programs=False, chain=False, pops=1, transfer
             def restart(res, year, src_parset, offset, label, key):
                 ps2 = copy.deepcopy(src_parset)
                 ps2.set_initialization(res, year=year)
-                st = aproj.ProjectSettings(sim_start=year, sim_end=tv[-1], sim_dt=0.25)
+                st = aproj.ProjectSettings(sim_start=year, sim_end=tv[-1], sim_dt=dt)
                 Bm = mr.build_model(env, st, F, ps2, progset, instr)
-                with Hooks(am, post=ls.hooks_B(offset, None, label, key)):
+                with Hooks(am, post=ls.hooks_B(offset, len(A.t), label, key)):
                     Bm.process()
-                compare_rest(env, am, A, Bm, [(offset + i, i) for i in range(len(Bm.t))], label, key)
+                # (with a step that is not a binary fraction the restarted grid may run one step past the original end)
+                ncommon = min(len(Bm.t), len(A.t) - offset)
+                env.claim("%s|restarted_grid_is_the_original_grid" % label, env.true(all(abs(float(Bm.t[i]) - float(A.t[offset + i])) <= 1e-9 for i in range(ncommon))), key="%s[grid]" % key)
+                compare_rest(env, am, A, Bm, [(offset + i, i) for i in range(ncommon)], label, key)
                 # the restarted run starts from exactly the saved state (rows of timed compartments included)
                 conds = []
                 for k, arr, idx in ls._stocks(Bm, 0):
@@ -655,17 +678,21 @@ def specs(prop, tier):
         for kind in ("alloc", "capacity", "coverage"):
             out.append(("overwrite[%s;Y=2000.5]" % kind, c09_overwrite, dict(kind=kind, Y=2000.5)))
             out.append(("overwrite[%s;Y=2000.6;first point after start]" % kind, c09_overwrite, dict(kind=kind, Y=2000.6, first_point_after_start=True)))
+            if kind == "alloc" or not q:
+                out.append(("overwrite[%s;Y=2000.75;series straddles the start year]" % kind, c09_overwrite, dict(kind=kind, Y=2000.75, first_point_before_start=True)))
         for par in ("beta", "foi", "foi2", "base"):
             for method in ("linear", "previous"):
                 for Y in ((2000.5,) if q else (2000.5, 2000.6)):
                     out.append(("scenario[%s;%s;Y=%g]" % (par, method, Y), c09_scenario, dict(par=par, Y=Y, method=method)))
         out.append(("extension[M10]", c09_extension, dict(name="M10")))
         out.append(("extension[M12;programs]", c09_extension, dict(name="M12", with_programs=True)))
+        out.append(("extension[M10;linear scenario on beta with a point beyond the short end]", c09_extension, dict(name="M10", scenario="beta")))
         if not q:
             out.append(("extension[M7]", c09_extension, dict(name="M7")))
     elif prop == "C10":
         out.append(("restart[M1;j=2]", c10_restart, dict(name="M1", j=2)))
         out.append(("restart[M4;j=1]", c10_restart, dict(name="M4", j=1)))
+        out.append(("restart[M1;j=3;dt=0.1]", c10_restart, dict(name="M1", j=3, dt=0.1)))
         out.append(("restart[M7;j=2;chain]", c10_restart, dict(name="M7", j=2, chain=True, T=6)))
         out.append(("restart[M8;j=2]", c10_restart, dict(name="M8", j=2)))
         out.append(("restart[M12;j=2;programs]", c10_restart, dict(name="M12", j=2, with_programs=True)))
